@@ -382,6 +382,11 @@ def check(ctx):
             r = results[f.qualname]
             st_ = [e for e in r.of_kind("setattr", "delattr")
                    if e.data["base"] is tm.param(f.params[0])]
+            if not st_:
+                # ... or kept in a private dictionary of the object
+                st_ = [e for e in r.of_kind("setitem")
+                       if e.data["base"].op == "attr" and
+                       e.data["base"].args[0] is tm.param(f.params[0])]
             if st_:
                 cp = _cache_protocol(prog, results, f, st_)
                 if cp is None:
@@ -450,6 +455,8 @@ def _cache_protocol(prog, results, f, st_):
     import ast as _ast
     from ..lib import implies
     selfp = tm.param(f.params[0])
+    if st_ and all(e.kind == "setitem" for e in st_):
+        return _cache_protocol_dict(prog, f, st_)
     names = {e.data["name"] for e in st_}
     if len(names) != 1:
         return None
@@ -511,6 +518,80 @@ def _cache_protocol(prog, results, f, st_):
                   f"{[k.name for k in receivers]} objects)")
 
 
+def _cache_protocol_dict(prog, f, st_):
+    """the same protocol for a cache kept in a private dictionary of the
+    object (`self._derived["path_length"] = ...`, filled when the key is
+    absent): dropped by rebinding the dictionary to an empty one, .clear(),
+    or deleting / popping the key"""
+    selfp = tm.param(f.params[0])
+    slots = {(e.data["base"], e.data["index"]) for e in st_}
+    if len(slots) != 1:
+        return None
+    base, key = slots.pop()
+    if not (base.op == "attr" and base.args[0] is selfp and
+            base.args[1].startswith("_") and tm.is_const(key)):
+        return None
+    D, c = base.args[1], f"{base.args[1]}[{tm.const_val(key)!r}]"
+
+    def filled(obj):
+        d_ = tm.attr(obj, D)
+
+        def assign(t: T):
+            if t.op == "cmp" and t.args[0] in ("In", "NotIn") and \
+                    t.args[1] is key and t.args[2] is d_:
+                return t.args[0] == "In"
+            return None
+        return assign
+    for e in st_:
+        if tm.fold(e.live, filled(selfp)) is not False:
+            return None
+    v = st_[0].data["value"]
+    deps = set()
+    for x in v.walk():
+        if x.op == "attr" and x.args[0] is selfp:
+            deps |= {"positions_xyz": {P, M}, P: {P},
+                     "orientations_quat_wxyz": {Q, M}, Q: {Q},
+                     "poses_se3": {M, P, Q}, M: {M},
+                     "timestamps": {"timestamps"}}.get(x.args[1], set())
+    if not deps:
+        return None
+
+    def drops(r, sp):
+        d_ = tm.attr(sp, D)
+        out = []
+        for e in r.events:
+            if e.kind == "setattr" and e.data["base"] is sp and \
+                    e.data["name"] == D and (
+                        (Interp.unname(e.data["value"]).op == "dict" and
+                         not Interp.unname(e.data["value"]).args) or
+                        (is_call_to(e.data["value"], "builtins.dict") and
+                         not e.data["value"].args[1])):
+                out.append(e)
+            elif e.kind == "call" and e.data.get("name") == ".clear" and \
+                    e.data.get("recv") is not None and (
+                        e.data["recv"] is d_ or
+                        root_object(e.data["recv"]) is d_):
+                out.append(e)
+            elif e.kind == "delitem" and e.data.get("base") is d_ and \
+                    e.data.get("index") is key:
+                out.append(e)
+            elif e.kind == "call" and e.data.get("name") == ".pop" and \
+                    e.data.get("recv") is d_ and e.data["args"] and \
+                    e.data["args"][0] is key:
+                out.append(e)
+        return out
+    owner = f.cls
+    receivers = [prog.classes[cq] for cq in (PATH, TRAJ)
+                 if prog.is_subclass(cq, owner.qualname)]
+    for recv_cls in receivers:
+        v = _cache_protocol_for(prog, f, c, deps, filled, drops, recv_cls)
+        if v is not None:
+            return v
+    return (True, f"{f.qualname} caches its result in {c}; every operation "
+                  f"that rebinds {sorted(deps)} empties it afterwards (on "
+                  f"{[k.name for k in receivers]} objects)")
+
+
 def _cache_protocol_for(prog, f, c, deps, filled, drops, recv_cls):
     import ast as _ast
     from ..lib import implies
@@ -546,10 +627,12 @@ def _cache_protocol_for(prog, f, c, deps, filled, drops, recv_cls):
              if e.data["base"] is sp and e.data["name"] in deps]
         if not W:
             continue
-        D = [(d, True) for d in drops(r, sp)]
         reads_cache = any(
             isinstance(n_, _ast.Attribute) and n_.attr == f.name
             for n_ in _ast.walk(m.node))
+        # (a drop *before* the write is as good if the method never asks for
+        # the cached quantity itself: nothing can refill the cache between)
+        D = [(d, reads_cache) for d in drops(r, sp)]
         for e in r.of_kind("call"):
             nm = (e.data.get("name") or "").rsplit(".", 1)[-1]
             rc = e.data.get("recv")
@@ -605,6 +688,12 @@ def _derived(ctx, prog):
                 t.args[1][0] is selfp and tm.is_const(t.args[1][1]) and \
                 t.args[1][1].args[1] not in VIEWS:
             return False
+        if t.op == "cmp" and t.args[0] in ("In", "NotIn") and \
+                tm.is_const(t.args[1]) and t.args[2].op == "attr" and \
+                t.args[2].args[0] is selfp and \
+                t.args[2].args[1].startswith("_") and \
+                t.args[2].args[1] not in VIEWS:
+            return t.args[0] == "NotIn"      # key of a private cache dict
         return None
     plain = Interp(prog, inline=lambda fn: False, inline_properties=False,
                    assume=no_cache)
